@@ -4,21 +4,26 @@ own obligation groups as one JSON document:  run.py <repo> <outdir>  ->  {"group
 The component is executed once per cv invocation (cached); each of its groups is registered as a
 cv Group whose runner picks its part of the result.
 """
-import json, os, subprocess, threading, time
+import hashlib, json, os, subprocess, threading, time
 import cvlib
 from cvlib import Result, REPO, VERIF
 
 _cache = {}
 _lock = threading.Lock()
+_locks = {}
+_locks_guard = threading.Lock()
 
 
-def _run_component(comp, interp, timeout):
-    with _lock:
-        if comp in _cache:
-            return _cache[comp]
-        out = os.path.join(cvlib.scratch(), 'ext-' + comp)
+def _run_component(comp, interp, timeout, extra=()):
+    key = (comp,) + tuple(extra)
+    with _locks_guard:
+        lk = _locks.setdefault(key, threading.Lock())
+    with lk:
+        if key in _cache:
+            return _cache[key]
+        out = os.path.join(cvlib.scratch(), 'ext-' + comp + ('-' + hashlib.md5(repr(extra).encode()).hexdigest()[:8] if extra else ''))
         os.makedirs(out, exist_ok=True)
-        cmd = [interp, os.path.join(VERIF, comp, 'run.py'), REPO, out]
+        cmd = [interp, os.path.join(VERIF, comp, 'run.py'), REPO, out] + list(extra)
         t0 = time.time()
         try:
             p = subprocess.run(cmd, capture_output=True, text=True, timeout=timeout)
@@ -28,14 +33,14 @@ def _run_component(comp, interp, timeout):
             doc = dict(_error='component %s timed out after %ds' % (comp, timeout), _cmd=' '.join(cmd))
         except Exception as e:
             doc = dict(_error='component %s failed: %s; stderr: %s' % (comp, e, (p.stderr[-800:] if 'p' in dir() else '')), _cmd=' '.join(cmd))
-        _cache[comp] = doc
+        _cache[key] = doc
         return doc
 
 
-def make_runner(comp, gid, interp='python3', timeout=1500, replay_key='native'):
+def make_runner(comp, gid, interp='python3', timeout=1500, replay_key='native', extra=()):
     def run(g):
         res = Result(g)
-        doc = _run_component(comp, interp, timeout)
+        doc = _run_component(comp, interp, timeout, extra)
         res.cmds.append(doc.get('_cmd', ''))
         if '_error' in doc:
             res.status = 'error'; res.reason = doc['_error']
